@@ -48,6 +48,8 @@ class MemoryLimitError(Exception):
 
 def equal_split(node):
     if isinstance(node, str):
+        if node is eqmark:  # a lone "=": empty name, empty value
+            return "", ""
         return None, node
 
     try:
@@ -124,10 +126,8 @@ class ArgumentList:
 
                 if do_strip and isinstance(val, str):
                     val = val.strip()
+                # keep scanning: a later binding of the same name overrides an earlier one
                 self.named_args[name] = (do_strip, val)
-
-                if n == name:
-                    break
 
         try:
             do_strip, val = self.named_args[n]
